@@ -51,6 +51,8 @@ type World struct {
 	QuiesceStarted bool
 	cfg     RunSpec
 	linkHook func(l *Link)
+	// PingSendFailed: some connection was given up because a ping/pong could not be queued
+	PingSendFailed bool
 	// mustLeave (C16): node/host:port pairs whose peer was dropped from its only list while connected
 	mustLeave map[string]bool
 	// PeriodicTraffic: the scenario has traffic that never ceases (health checks); settle periods are not extended
@@ -127,6 +129,15 @@ func (l *memLogger) log(lv, msg string) {
 				if id, ok := f.Value.(uint32); ok {
 					l.n.ErrOnClosedConn[id]++
 				}
+			}
+		}
+	}
+	if lv == "I" && msg == "Connection error." {
+		for _, f := range l.fields {
+			if f.Key == "site" && (f.Value == "send ping" || f.Value == "send pong") {
+				// a ping or pong could not be queued (full send buffer): by design the
+				// library then gives the connection up, with every call on it
+				l.w.PingSendFailed = true
 			}
 		}
 	}
